@@ -11,7 +11,7 @@ CHECKS = {
          "Every input of a stated finite space is parsed through the real entry points and the lossless-tiling invariant (offset chain, char boundaries, line numbers, get_str of every node) is evaluated on every accepted tree; no sampling.",
          "Trusted: the harness, preprocess_str as provider of the reference text, the vendored seeds for reach. Bounds in evidence.parts."),
 
- "C12": ("bounded exhaustive enumeration: every accepted seed or default grammar sentence x 16 trivia forms x (all gaps | each single gap), `resetall before each description followed by each trivia form, sources whose descriptions share macros x `resetall placements, 8 rejected probes x all ordered pairs of 20 leading forms, all comment shapes over small alphabets; oracle = acceptance and whitespace-free skeleton equal to the original's",
+ "C12": ("bounded exhaustive enumeration: every accepted seed or default grammar sentence x 17 trivia forms x (all gaps | each single gap), `resetall before each description followed by each trivia form, sources whose descriptions share macros x `resetall placements, 8 rejected probes x all ordered pairs of 20 leading forms, all comment shapes over small alphabets; oracle = acceptance and whitespace-free skeleton equal to the original's",
          "Every (program, gap assignment) of the stated finite space is parsed by the real parser and compared with the original parse; no sampling.",
          "Trusted: the harness; the token/gap layout is derived from the accepted tree of the original; the blank ending an escaped identifier / bare library path is part of that token. Two known findings (form feed, memo eviction) are matched by re-execution signatures."),
  "C15": ("bounded exhaustive enumeration of sources (seeds, seeds cut after every token, all token soups <= n, keyword-region programs, grammar sentences behind leading trivia, library sentences) each parsed in strict and incomplete mode, junk appended and glued, cut seeds through file / string / two-step routes x ignore_include; invariant + differential oracle",
@@ -50,13 +50,13 @@ CHECKS = {
          "All inputs of the stated finite spaces are run twice and compared.",
          "Trusted: models/lexref.rs to tokenise outputs. Three known findings matched by signatures (fused tokens, comment attached to a literal, directive after a literal)."),
 
- "C07": ("explicit-state exploration of call histories on the real library: every sequence <= n of a 30-call alphabet executed on a fresh OS thread with the last result compared to the fresh-thread result, plus a breadth-first search over hooked thread-state fingerprints (memo occupancy, directive depth, keyword-version stack) with every call checked from every reachable state",
+ "C07": ("explicit-state exploration of call histories on the real library: every sequence <= n of a 33-call alphabet executed on a fresh OS thread with the last result compared to the fresh-thread result, plus a breadth-first search over hooked thread-state fingerprints (memo occupancy, directive depth, keyword-version stack) with every call checked from every reachable state",
          "All operation sequences up to the stated depth are executed on the real entry points (forced memo-key collisions through one reused buffer); the BFS reports states, transitions and the depth at which the frontier emptied.",
          "Trusted: the harness; the hook thread_state() as the complete mutable parser state apart from nom-recursive's monotone id table; state merging only in the BFS part."),
  "C09": ("exhaustive enumeration of recursion depths and cycle lengths (macro chains, function-like macro chains, include chains of depth 1..70, chains behind sibling usages, cycles of length 1..4, macro-expands-to-include cycles, grids of include depth x macro depth), with strip_comments off and on, one process per case with the default 8 MiB stack and a 20 s cap",
          "Every depth / cycle of the stated finite space is executed on real files through preprocess(); result, number of Include wrappers and survival of the process are checked.",
          "Trusted: the harness; limit 64 as the property states. A process that dies is the violation."),
- "C10": ("bounded exhaustive enumeration over real directory layouts: every subset of {cwd, inc1, inc2} holding the file x 5 include-path lists x 7 contents x 3 directive styles x once/twice x ignore_include x relative/absolute x 3 file endings x layouts, through preprocess (strip_comments off / on) and preprocess_str, against the reference preprocessor with the property's search rule; plus 27 same-line forms, 7 forms of the file-naming macro and `include inside expansions",
+ "C10": ("bounded exhaustive enumeration over real directory layouts: every subset of {cwd, inc1, inc2} holding the file x 5 include-path lists x 8 contents x 3 directive styles x once/twice x ignore_include x relative/absolute x 3 file endings x layouts, through preprocess (strip_comments off / on) and preprocess_str, against the reference preprocessor with the property's search rule; plus 27 same-line forms, 7 forms of the file-naming macro and `include inside expansions",
          "Every configuration of the stated finite space is laid out on disk and run through preprocess() and preprocess_str(); tokens, define table, origins and errors are compared with the model on each.",
          "Trusted: models/ppref.rs incl. the search rule as the property states it; process-wide chdir into a scratch directory with per-thread file names."),
  "C20": ("exhaustive enumeration of 52 inputs x ignore_include x allow_incomplete x strip_comments x 3 define tables x 4 include-path lists x top file in the working directory / a subdirectory, on real files, plus unreadable top files; differential oracle between preprocess/preprocess_str and between the routes to a tree (text, origin of every byte/leaf, tables with origins, errors)",
@@ -66,7 +66,7 @@ CHECKS = {
  "C13": ("bounded exhaustive enumeration: 8 version specifiers x 258 words x 7 identifier positions, the default set, all keyword-region programs <= n (nested, sequential, unclosed, with `define segments), leading-directive pairs, `define of every directive name; plus the invariant 'no SimpleIdentifier is reserved in the set in force' recomputed from the directive nodes on every tree of the corpus and the reference grammar",
          "Every (version, word, position) and every region program of the stated finite space is parsed; acceptance and the identifier leaves are compared with independently typed keyword tables.",
          "Trusted: models/keywords/*.txt (typed from Annex B / Table 22-x, not read from keywords.rs). Ten known findings, each a specific (position, word) pair."),
- "C17": ("bounded exhaustive sweep: inputs (seeds, default sentence of every grammar rule, keyword-region programs also opened inside a construct, left-recursive list shapes of 1..8 elements, ordered pairs of raw entry-point calls on one buffer) x memo policies (FIFO capacities incl. the shipped one, periodic flush, forced misses) chosen through the verif hook; result compared with the unbounded-table run; hook counters prove that eviction happened",
+ "C17": ("bounded exhaustive sweep: inputs (seeds, default sentence of every grammar rule, keyword-region programs also opened inside a construct, left-recursive list shapes of 1..8 elements, ordered pairs of raw entry-point calls on one buffer, kept directives next to comments in incomplete mode) x memo policies (FIFO capacities incl. the shipped one, periodic flush, forced misses) chosen through the verif hook; result compared with the unbounded-table run; hook counters prove that eviction happened",
          "Every (input, policy) pair of the stated finite space is executed on the real parser with the real nom-packrat table behind a counting wrapper.",
          "Trusted: the verif wrapper delegates to nom_packrat::PackratStorage. Divergent pairs are attributed to the one known finding only if a child-process re-run in a diagnostic mode (flag-carrying spans bypass the table) reproduces the reference result."),
  "C19": ("stateless model checking of the real code under a token-passing scheduler over real OS threads: all schedules with <= 1 (quick) / 2-3 (thorough) preemptions at the hook points of parser and preprocessor for 2- and 3-thread combinations of 14 colliding thread bodies; every execution runs to completion and is compared with the solo results; failing schedules are replayed twice",
